@@ -20,6 +20,7 @@ TIERS = {
 }
 SELFTEST_RUNS = 240
 GC_EVERY = 40  # the method runs build module classes (cyclic garbage holding jitted functions); jaxlib crashes once its jit cache fills with them
+CLEAR_JAX_CACHES_EVERY = 150
 RULE = (
   'NNX runs: one history (<= 16 ops) on 1-2 Rngs objects with per-stream seeds: draw from a named or missing stream, '
   'split_rngs(splits, only) as call+restore_rngs or as context manager whose body draws and may raise, reseed, draws inside '
